@@ -6,7 +6,7 @@ import re
 from harness import core, docgen, inputs, trees
 
 GEN = ['gen_tables']
-THEOREMS = ['C09_fragment_seq_round_trip', 'C09_plain_lines', 'C09_span_verbatim', 'C09_html_block_verbatim', 'C09_blank_lines_kept', 'C09_definitions_in_place',
+THEOREMS = ['C09_normalize_whitespace_round_trip', 'C09_normalize_whitespace_instance', 'C09_fragment_seq_round_trip', 'C09_plain_lines', 'C09_span_verbatim', 'C09_html_block_verbatim', 'C09_blank_lines_kept', 'C09_definitions_in_place',
             'C09_prefix_lines', 'C09_prefix_count', 'C09_fragment_round_trip', 'C09_fragment_round_trip_text', 'C09_outline_round_trip', 'C09_fragment_round_trip_hypotheses',
             'C09_fragment_round_trip_former_findings']
 TRUSTED = ['Model/MarkdownRenderer.v: hand-written model of markdown_renderer.py, tied by X-md (the real renderer vs the extracted model on parsed trees)',
